@@ -44,8 +44,8 @@ type c09Sched struct {
 	Horizon  int64  `json:"horizon,omitempty"`
 }
 
-// c09Case is one simulated run (and the replay case) of C09.
-type c09Case struct {
+// c09One is one simulated run of C09.
+type c09One struct {
 	Bundle     *gen.Case        `json:"bundle"`
 	Obligatory []string         `json:"obligatory,omitempty"`
 	Logger     bool             `json:"logger,omitempty"`
@@ -67,13 +67,21 @@ func (b *roBundle) PluralCase(n int) int {
 	return 1
 }
 
+// c09Case is the replay case of C09: every simulated run this worker process executed, in order,
+// up to and including the failing one, each with its schedule decisions.  Process-level state
+// (package-level caches, free lists, counters) is thereby part of the replay; the minimiser
+// drops the runs that do not matter.
+type c09Case struct {
+	Runs []*c09One `json:"runs"`
+}
+
 type opResult struct {
 	out []byte
 	err bool
 	esc string
 }
 
-func (c *c09Case) chooser() simrt.Chooser {
+func (c *c09One) chooser() simrt.Chooser {
 	s := c.Sched
 	switch s.Strategy {
 	case "pct":
@@ -166,7 +174,7 @@ type c09Outcome struct {
 }
 
 // c09Run executes one simulated run.
-func c09Run(cs *c09Case, replay bool) c09Outcome {
+func c09Run(cs *c09One, replay bool) c09Outcome {
 	sut.InstallExtensions()
 	sut.SetObligatory(cs.Obligatory)
 	if cs.Logger {
@@ -242,16 +250,17 @@ func c09Run(cs *c09Case, replay bool) c09Outcome {
 		wg.Wait()
 	})
 	out := c09Outcome{res: res}
-	mkf := func(class, site, detail string) *wk.Failure {
-		c := *cs
+	// the decisions of this run become part of the process log
+	if !replay || cs.Decisions == nil {
 		if len(res.Decisions) <= 20000 {
-			c.Decisions = res.Decisions
-			if c.Decisions == nil {
-				c.Decisions = []simrt.Decision{}
+			cs.Decisions = res.Decisions
+			if cs.Decisions == nil {
+				cs.Decisions = []simrt.Decision{}
 			}
 		}
-		b, _ := json.Marshal(&c)
-		return &wk.Failure{Class: class, Site: site, Detail: detail, Replay: b}
+	}
+	mkf := func(class, site, detail string) *wk.Failure {
+		return &wk.Failure{Class: class, Site: site, Detail: detail}
 	}
 	switch {
 	case invalid != "":
@@ -351,10 +360,10 @@ func raceLogSize(prefix string) (int64, string) {
 }
 
 // c09Generate draws the case of run index i of a unit.
-func c09Generate(c *wk.Ctx, run, i int) *c09Case {
+func c09Generate(c *wk.Ctx, run, i int) *c09One {
 	r := simrt.NewRNG(c.UnitSeed(run, uint64(1000+i)))
 	gc := gen.Generate(c.UnitSeed(run, uint64(2000+i)), c09Opts())
-	cs := &c09Case{Bundle: gc, CatKind: r.Intn(3), Logger: r.Intn(3) == 0}
+	cs := &c09One{Bundle: gc, CatKind: r.Intn(3), Logger: r.Intn(3) == 0}
 	switch r.Intn(4) {
 	case 1:
 		cs.Obligatory = []string{"vbang"}
@@ -405,7 +414,15 @@ func c09Generate(c *wk.Ctx, run, i int) *c09Case {
 // C09 is the worker entry point for property C09.
 func C09(c *wk.Ctx) {
 	LoadSites(c.Sites)
-	checkRace := func(before int64, cs *c09Case, res *simrt.Result) *wk.Failure {
+	var processLog []*c09One
+	attach := func(f *wk.Failure) *wk.Failure {
+		if f != nil && f.Class != "invalid-case" && f.Replay == nil {
+			b, _ := json.Marshal(&c09Case{Runs: processLog})
+			f.Replay = b
+		}
+		return f
+	}
+	checkRace := func(before int64) *wk.Failure {
 		after, path := raceLogSize(c.RaceLog)
 		if after <= before {
 			return nil
@@ -413,25 +430,30 @@ func C09(c *wk.Ctx) {
 		b, _ := os.ReadFile(path)
 		report := string(b[before:])
 		site, first := raceSites(report)
-		cc := *cs
-		if res != nil && len(res.Decisions) <= 20000 {
-			cc.Decisions = res.Decisions
-		}
-		rb, _ := json.Marshal(&cc)
-		return &wk.Failure{Class: "race", Site: site, Detail: "the race detector reports conflicting accesses that soy does not order (serial, replayable execution; task handoffs are hidden from the detector):\n" + trunc(first, 3500), Replay: rb}
+		return attach(&wk.Failure{Class: "race", Site: site, Detail: "the race detector reports conflicting accesses that soy does not order (serial, replayable execution; task handoffs are hidden from the detector):\n" + trunc(first, 3500)})
 	}
 	if c.Mode == "replay" {
 		var cs c09Case
 		readReplay(c, &cs)
 		u := wk.NewUnit(0)
-		before, _ := raceLogSize(c.RaceLog)
-		o := c09Run(&cs, true)
-		u.Evals, u.Steps = 1, o.res.Steps
-		if o.res.Diverged {
-			u.Counters["replay_diverged"]++
+		for _, one := range cs.Runs {
+			if one == nil || one.Bundle == nil {
+				continue
+			}
+			processLog = append(processLog, one)
+			before, _ := raceLogSize(c.RaceLog)
+			o := c09Run(one, true)
+			u.Evals++
+			u.Steps += o.res.Steps
+			if o.res.Diverged {
+				u.Counters["replay_diverged"]++
+			}
+			if o.fail != nil && o.fail.Class == "invalid-case" {
+				continue
+			}
+			u.AddFail(checkRace(before))
+			u.AddFail(attach(o.fail))
 		}
-		u.AddFail(checkRace(before, &cs, o.res))
-		u.AddFail(o.fail)
 		c.Emit(u)
 		return
 	}
@@ -453,6 +475,7 @@ func C09(c *wk.Ctx) {
 		stop := false
 		for i := 0; i < perUnit && !stop; i++ {
 			cs := c09Generate(c, run, i)
+			processLog = append(processLog, cs)
 			before, _ := raceLogSize(c.RaceLog)
 			o := c09Run(cs, false)
 			if o.fail != nil && o.fail.Class == "invalid-case" {
@@ -491,11 +514,11 @@ func C09(c *wk.Ctx) {
 				u.Sample(1, map[string]interface{}{"tasks": cs.Tasks, "sched": cs.Sched, "obligatory": cs.Obligatory, "steps": o.res.Steps, "switches": o.res.Switches,
 					"first_file": trunc(cs.Bundle.Files[0].Source(), 300)})
 			}
-			if rf := checkRace(before, cs, o.res); rf != nil {
+			if rf := checkRace(before); rf != nil {
 				u.AddFail(rf)
 				stop = true // the detector reports a given race once per process: restart
 			}
-			u.AddFail(o.fail)
+			u.AddFail(attach(o.fail))
 		}
 		u.Hash("unit_digest", unitDigest^uint64(run)<<40)
 		u.Observe("digest", fmt.Sprintf("%016x", unitDigest))
